@@ -480,7 +480,8 @@ def gen_excludes(rng, lo, hi, regular, tvalues=None, p_all=0.04):
     """ignore / illegal bins cutting the regular bins at every position"""
     from .covref import items_set
     pool = set()
-    for _, b in (regular or []):
+    regular = [x for x in (regular or []) if "items" in x[1]]
+    for _, b in regular:
         for it in b["items"]:
             l, h = _lohi(it)
             pool.update((l, h, l - 1, h + 1, (l + h) // 2))
